@@ -80,3 +80,4 @@ pub fn join<T: std::fmt::Display>(xs: &[T]) -> String
 /// f64 as its IEEE bit pattern, hexadecimal.
 pub fn fbits(x: f64) -> String { format!("{:016x}", x.to_bits()) }
 pub mod gate;
+pub mod sim;
